@@ -227,6 +227,27 @@ fn gen_comment_file(lang: &str, rng: &mut Rng, eol: &str) -> GenFile {
                 g.construct("go-directive");
                 last_was_comment = true;
             }
+            9 if lang == "java" => {
+                // Javadoc inline tag wrapped over a line break: its body is code, not prose
+                g.raw("/**");
+                g.raw(eol);
+                g.raw(" * ");
+                g.prose(rng, "javadoc-line", 2, 4, (1, 3));
+                g.raw(" ");
+                let st = g.n;
+                g.raw(*rng.pick(&["{@code zxqv(qwrtz,", "{@link Zxqv#qwrtz(Xqzzy,"]));
+                g.raw(eol);
+                g.raw(" * ");
+                g.raw(*rng.pick(&["xqzzy)}", "Qwrtz) zxqv}"]));
+                g.segs.push(Seg { role: Role::NonProse, what: "javadoc-inline-tag-wrapped", start: st, end: g.n });
+                g.raw(" ");
+                g.prose(rng, "javadoc-line", 1, 3, (0, 1));
+                g.raw(eol);
+                g.raw(" */");
+                g.raw(eol);
+                g.construct("javadoc-inline-tag-wrapped");
+                last_was_comment = true;
+            }
             7 if lang == "python" => {
                 let st = g.n;
                 g.raw("def f():");
@@ -676,7 +697,31 @@ fn gen_lhs(rng: &mut Rng, eol: &str) -> GenFile {
 }
 
 /// Generate a file with ground truth for a front-end. `hostile` additionally varies line ends.
-pub fn gen_file(fe: Fe, rng: &mut Rng, _c: &Corpus, hostile: bool) -> GenFile {
+pub fn gen_file(fe: Fe, rng: &mut Rng, c: &Corpus, hostile: bool) -> GenFile {
+    let mut g = gen_file_inner(fe, rng, c, hostile);
+    // one file in ten starts with a byte order mark (files saved as "UTF-8 with BOM")
+    if hostile && rng.chance(1, 10) {
+        // In the Markdown family (and Typst) the mark would become part of the first block and change what that
+        // block is (`# Title` is no heading behind it): there it gets a paragraph of its own.
+        let lead = if matches!(fe, Fe::Comment(_) | Fe::Html | Fe::Plain) { "\u{FEFF}".to_string() } else { "\u{FEFF}\n\n".to_string() };
+        let k = lead.chars().count();
+        g.text.insert_str(0, &lead);
+        g.n += k;
+        for s in &mut g.segs {
+            s.start += k;
+            s.end += k;
+        }
+        for w in &mut g.words {
+            w.start += k;
+            w.end += k;
+        }
+        g.segs.insert(0, Seg { role: Role::Optional, what: "byte-order-mark", start: 0, end: 1 });
+        g.construct("byte-order-mark");
+    }
+    g
+}
+
+fn gen_file_inner(fe: Fe, rng: &mut Rng, _c: &Corpus, hostile: bool) -> GenFile {
     let eol = if hostile && rng.chance(1, 4) { "\r\n" } else { "\n" };
     match fe {
         Fe::Comment(i) => gen_comment_file(LANGS[i as usize], rng, eol),
